@@ -32,8 +32,8 @@ PID = "C19"
 
 FIXED_PROBE = [
     ["ctor", "2", "AV:L/AC:L/Au:M/C:N/I:P/A:C/E:U/RL:W/TD:L"],
-    ["ctor", "3", "CVSS:3.0/AV:N/AC:L/PR:L/UI:R/S:C/C:H/I:L/A:N/MS:U/MPR:H/E:P"],
-    ["ctor", "3", "CVSS:3.1/AV:N/AC:L/PR:L/UI:R/S:C/C:H/I:L/A:N/MS:U/MPR:H/E:P"],
+    ["ctor", "3", "CVSS:3.0/AV:N/AC:L/PR:L/UI:R/S:U/C:H/I:H/A:H/MS:C/MPR:H/CR:H/IR:H/AR:H/E:P"],
+    ["ctor", "3", "CVSS:3.1/AV:N/AC:L/PR:L/UI:R/S:U/C:H/I:H/A:H/MS:C/MPR:H/CR:H/IR:H/AR:H/E:P"],
     ["ctor", "4", "CVSS:4.0/AV:L/AC:H/AT:N/PR:N/UI:N/VC:L/VI:N/VA:H/SC:L/SI:H/SA:H/MSI:S/E:P/U:Red"],
     ["ctor", "2", "AV:L/AC:L/Au:M/C:N/I:P"],
     ["ctor", "3", "CVSS:3.2/AV:N/AC:L/PR:L/UI:R/S:C/C:H/I:L/A:N"],
@@ -71,6 +71,28 @@ def deep(x, depth=0):
     return (type(x).__name__, repr(x))
 
 
+def func_state(f):
+    """hidden state a function can carry: attributes, (mutable) defaults, closure cells, lru_cache statistics"""
+    out = []
+    try:
+        out.append(("attrs", deep(dict(getattr(f, "__dict__", {}) or {}))))
+        out.append(("defaults", deep(getattr(f, "__defaults__", None)), deep(getattr(f, "__kwdefaults__", None))))
+        cl = getattr(f, "__closure__", None)
+        if cl:
+            cells = []
+            for c in cl:
+                try:
+                    cells.append(deep(c.cell_contents) if not callable(c.cell_contents) else "callable")
+                except ValueError:
+                    cells.append("<empty>")
+            out.append(("closure", tuple(cells)))
+        if hasattr(f, "cache_info"):
+            out.append(("cache_info", repr(f.cache_info())))
+    except Exception as e:  # noqa
+        out.append(("unreadable", repr(e)))
+    return tuple(out)
+
+
 def snapshot():
     import types
     snap = {}
@@ -88,12 +110,18 @@ def snapshot():
             if isinstance(v, type):
                 if getattr(v, "__module__", "").startswith("cvss"):
                     for ck, cv in sorted(vars(v).items()):
-                        if not ck.startswith("__") and not callable(cv) and not isinstance(cv, (classmethod, staticmethod, property)):
+                        if ck.startswith("__") and ck not in ("__init__", "__eq__", "__hash__"):
+                            continue
+                        if isinstance(cv, (classmethod, staticmethod)):
+                            cv = cv.__func__
+                        if callable(cv):
+                            snap["%s.%s.%s" % (name, k, ck)] = func_state(cv)
+                        elif not isinstance(cv, property):
                             snap["%s.%s.%s" % (name, k, ck)] = deep(cv)
                     snap["%s.%s.<attrs>" % (name, k)] = tuple(sorted(vars(v)))
                 continue
             if callable(v):
-                snap["%s.%s" % (name, k)] = ("callable", getattr(v, "__module__", None), getattr(v, "__name__", None))
+                snap["%s.%s" % (name, k)] = ("callable", getattr(v, "__module__", None), getattr(v, "__name__", None)) + func_state(v)
                 continue
             snap["%s.%s" % (name, k)] = deep(v)
         snap["%s.<names>" % name] = tuple(sorted(k for k in vars(mod) if not k.startswith("__")))
@@ -141,10 +169,9 @@ def quiet_eval(item):
 def check_history(inp):
     """execute ops (a history) in this process, then the probe items; compare with a fresh process"""
     ops, items = inp["ops"], inp["probe"]
-    fresh = probe.run_probe(items)
-    if "error" in fresh or not fresh.get("import_ok"):
-        raise runner.HarnessError("fresh probe process failed: %r" % (fresh,))
-    want = [_norm(x) for x in fresh["results"]]
+    want = [fresh_one(it) for it in items]
+    if any(isinstance(w, dict) and "probe_error" in w for w in want):
+        raise runner.HarnessError("fresh probe process failed: %r" % (want,))
     warm_up()
     before = snapshot()
     fails = []
@@ -240,7 +267,6 @@ def check_decimal(inp):
     return fails
 
 
-CHECKS = {"history": check_history, "schedule": check_schedule, "hashseed": check_hashseed, "decimal": check_decimal}
 
 
 # ---- generators -------------------------------------------------------------------------------------
@@ -281,17 +307,12 @@ def op_strategy():
     return s()
 
 
-def history_part(n_examples, shard, steps):
+def history_part(n_examples, shard, steps, baseline):
     from hypothesis import seed, strategies as st
     from hypothesis.stateful import RuleBasedStateMachine, invariant, rule, run_state_machine_as_test
     import hypothesis.errors as he
     part = runner.Part(PID)
     warm_up()
-    fresh = probe.run_probe(FIXED_PROBE)
-    if "error" in fresh or not fresh.get("import_ok"):
-        part.harness_errors.append("fresh probe failed: %r" % (fresh,))
-        return part
-    baseline = [_norm(x) for x in fresh["results"]]
     snap0 = snapshot()
     recorded = []       # (history so far, item, local result) for the batch comparison
 
@@ -495,13 +516,49 @@ def decimal_part(idx, n_env, seed):
     return part
 
 
+def fresh_one(item):
+    """one probe item in its own fresh interpreter process: a result with no history at all"""
+    r = probe.run_probe([item])
+    if "error" in r or not r.get("import_ok"):
+        return {"probe_error": r.get("error") or r.get("import_error")}
+    return _norm(r["results"][0])
+
+
+def ambient_diff(r):
+    a, b = r.get("ambient_before") or {}, r.get("ambient_after") or {}
+    return dict((k, [a.get(k), b.get(k)]) for k in sorted(set(a) | set(b)) if a.get(k) != b.get(k))
+
+
+def check_ambient(inp):
+    """
+    fresh process: decimal context, sys.path, warnings.filters and cwd are recorded BEFORE the package is
+    imported and after the items were evaluated; importing and using the library must not change them
+    """
+    r = probe.run_probe(inp["items"])
+    if "error" in r or not r.get("import_ok"):
+        raise runner.HarnessError("probe failed: %r" % (r.get("error") or r.get("import_error")))
+    d = ambient_diff(r)
+    if d:
+        return [failure("process-global state as before the import", d, note="after importing cvss and evaluating %d item(s) in a fresh process" % len(inp["items"]))]
+    return []
+
+
 def run(tier, t0):
     n, problems = oracles.selftest()
     if problems:
         raise runner.HarnessError("oracle self-test failed: %r" % problems[:3])
     part = runner.Part(PID)
     q = tier == "quick"
-    part.merge(runner.hyp_shards("vf.props.c19", "history_part", 320 if q else 8000, args=(20 if q else 40,)))
+    baseline = runner.parallel("vf.props.c19", "fresh_one", [(it,) for it in FIXED_PROBE])
+    if any(isinstance(b, runner.Part) or (isinstance(b, dict) and "probe_error" in b) for b in baseline):
+        raise runner.HarnessError("fresh probe processes failed: %r" % (baseline,))
+    # import-time and first-use effects on process-global state, seen from outside: one item per process and all at once
+    for items in [[it] for it in FIXED_PROBE] + [FIXED_PROBE, [["interactive", 4.0, True, ["n"] * 11 + [""] * 21]],
+                                                 [["cli", ["-j", "-2", "--vector=AV:L/AC:L/Au:M/C:N/I:P/A:C"], None]]]:
+        part.count(None, classes=("ambient-in-fresh-process",))
+        part.nontrivial_count += 1
+        part.check("ambient", check_ambient, {"items": items})
+    part.merge(runner.hyp_shards("vf.props.c19", "history_part", 320 if q else 8000, args=(20 if q else 40, baseline)))
     part.merge(runner.hyp_shards("vf.props.c19", "schedule_part", 800 if q else 32000))
     for p in runner.parallel("vf.props.c19", "stress_part", [(s, 1200 if q else 20000, runner.SEED) for s in range(4)]):
         part.merge(p)
@@ -521,5 +578,9 @@ def run(tier, t0):
                           "schedules are explored at line granularity in frames of cvss/*.py; interleavings inside one line are left to the free-running stress",
                           "lazy imports of the standard library are triggered by a warm-up before the first snapshot"],
                          required=("history", "op:ctor-valid", "op:ctor-invalid", "op:rh-mismatch", "op:text", "op:interactive", "op:cli",
-                                   "batch-compared", "schedule", "switches>=10", "free-running-stress", "hashseed", "decimal", "prec=28", "prec=200"),
+                                   "batch-compared", "ambient-in-fresh-process", "schedule", "switches>=10", "free-running-stress", "hashseed", "decimal", "prec=28", "prec=200"),
                          extra={"forced_thread_switches": part.extra.get("switches", 0), "traced_line_events": part.extra.get("line_events", 0)})
+
+
+CHECKS = {"history": check_history, "schedule": check_schedule, "hashseed": check_hashseed, "decimal": check_decimal,
+          "ambient": check_ambient}
